@@ -607,7 +607,7 @@ def _analyse_regions(ana, prog, src, tree, scheds, good, only):
                 if wsets and set.union(*map(set, wsets)) != \
                         set.intersection(*map(set, wsets)):
                     labs.append("class:write_on_some_paths")
-                for name in sorted(res.needed_out):
+                for name in sorted(res.needed_out | res.ctu[1]):
                     fac = first_access(nodes, name)
                     if fac and fac[0] == "W" and fac[1]:
                         labs.append("class:conditional_write")
